@@ -488,3 +488,62 @@ func H_C01_negative() {
 	sameRows(got, want, "filter")
 	verif.Reach("end")
 }
+
+// H_C01_tabletypes: the table may arrive as []any, []Map or
+// []map[string]any, with rows of type Map or map[string]any: the filter
+// result is the same.
+func H_C01_tabletypes() {
+	n := verif.Choose("rows", maxRows(2, 3)+1)
+	kind := verif.Choose("table-type", 4)
+	op := verif.Choose("op", len(cmpOps))
+	c := verif.F64("c")
+	rows := make([]Map, n)
+	for i := range rows {
+		x := verif.F64("a")
+		verif.Assume(x == x)
+		rows[i] = Map{"a": x, "id": float64(i)}
+	}
+	var table any
+	switch kind {
+	case 0:
+		arr := make([]any, n)
+		for i, r := range rows {
+			arr[i] = r
+		}
+		table = arr
+	case 1:
+		table = append([]Map(nil), rows...)
+	case 2:
+		arr := make([]map[string]any, n)
+		for i, r := range rows {
+			arr[i] = map[string]any(r)
+		}
+		table = arr
+	case 3:
+		arr := make([]any, n)
+		for i, r := range rows {
+			arr[i] = map[string]any(r)
+		}
+		table = arr
+	}
+	got, ok := runQuery(Map{"t": table}, verif.SQL("SELECT * FROM t WHERE a "+cmpOps[op]+" ?", c))
+	if !ok {
+		return
+	}
+	var want []Map
+	for _, r := range rows {
+		if refCmp(op, f64of(r["a"]), c) {
+			want = append(want, r)
+		}
+	}
+	sameRows(got, want, "filter")
+	// and the caller's table is left as it was
+	switch t := table.(type) {
+	case []Map:
+		verif.Assert(len(t) == n, "table-length")
+		for i := range t {
+			verif.Assert(verif.Eq(t[i], Map{"a": rows[i]["a"], "id": float64(i)}), "table-rows")
+		}
+	}
+	verif.Reach("end")
+}
